@@ -53,8 +53,8 @@ def parseAssigns : List String → Option (List (String × List (List XHost)))
     pure ((c, ls) :: rest)
   | _ => none
 
-def parseOp (tok : String) : Option Op :=
-  match tok.splitOn "/" with
+def parseOp1 (fields : List String) : Option Op :=
+  match fields with
   | ["RN"] => some .routersNil
   | ["RU", r, vhs] => do
     let vs ← (splitList "," vhs).mapM parseVHost
@@ -84,6 +84,27 @@ def parseOp (tok : String) : Option Op :=
     let t ← if tls == "T1" then some true else if tls == "T0" then some false else none
     pure (.addOrUpdateListener ⟨unName n, addr, ch, if sf == "-" then [] else sf.splitOn "+", nf, idle, keep, t⟩)
   | ["LD", n] => some (.deleteListener n)
+  | _ => none
+
+/-- one case token ↦ (model operation, `void`): lower-case kinds are the same calls through `cluster.MngAdapter`;
+`XC`/`XD` are `ConvertUpdateClusters` / `ConvertDeleteClusters` on one envoy cluster (conversion = black box): an EDS cluster is
+`AddOrUpdatePrimaryCluster` / `RemovePrimaryCluster`, any other is `AddOrUpdateClusterAndHost` with the concatenated endpoints /
+ignored; these two report nothing (`void`), the harness prints `ok`. -/
+def parseOp (tok : String) : Option (Op × Bool) :=
+  match tok.splitOn "/" with
+  | ["XC", c, tag, et, locs] => do
+    let t ← tag.toNat?
+    let ls ← (splitList ";" locs).mapM parseLoc
+    let hosts := (ls.map (·.map convHost)).flatten
+    if et == "E" then pure (.addOrUpdateCluster c t hosts, true)
+    else if et == "S" then pure (.addOrUpdateClusterAndHost c t hosts hosts, true)
+    else none
+  | ["XD", c, et] =>
+    if et == "E" then some (.removeClusters [c], true) else if et == "S" then some (.removeClusters [], true) else none
+  | k :: rest =>
+    let up := k.toUpper
+    if k != up && !["CP", "CH", "HU", "HA", "HR", "CR"].contains up then none
+    else (parseOp1 (up :: rest)).map (fun o => (o, false))
   | _ => none
 
 def okTok (b : Bool) : String := if b then "ok" else "err"
@@ -125,18 +146,25 @@ def parseListenerObs (s : String) : Option (Option LiveListener) :=
 def renderObs (names : List String) (obs : List String) : String :=
   if names.isEmpty then "-" else joinWith ";" ((names.zip obs).map (fun p => p.1 ++ "@" ++ p.2))
 
+/-- the cluster a CDS delete names (observed even when the delete is ignored) -/
+def xdName (tok : String) : Option String :=
+  match tok.splitOn "/" with
+  | ["XD", c, _] => some c
+  | _ => none
+
 def hist (opToks impl : List String) : String :=
   -- an update operation that panics is a violation outright (the model has no such outcome)
   if (impl.head?.getD "").splitOn "," |>.contains "panic" then "D V operation-panicked" else
   match opToks.mapM parseOp, impl with
-  | some ops, [res, lr, br, lc, bc, ll, bl] =>
+  | some pops, [res, lr, br, lc, bc, ll, bl] =>
+    let ops := pops.map (·.1)
     match parseResults res, parseObs lr, parseObs br, parseObs lc, parseObs bc, parseObs ll, parseObs bl with
     | some ires, some ilr, some ibr, some ilc, some ibc, some ill, some ibl =>
       let rnames := sortStrings (dedup (ops.flatMap routerNames))
-      let cnames := sortStrings (dedup (ops.flatMap clusterNames))
+      let cnames := sortStrings (dedup ((ops.flatMap clusterNames) ++ opToks.filterMap xdName))
       let lnames := sortStrings (dedup (ops.flatMap listenerNames))
       let s := run stdOracle ops
-      let mres := results stdOracle init ops
+      let mres := ((results stdOracle init ops).zip pops).map (fun p => p.1 || p.2.2)
       let mob := observe stdOracle rnames cnames lnames mres s
       -- model output in the harness' format
       let mLR := renderObs rnames mob.liveR
